@@ -1,10 +1,13 @@
 use crate::engine::Property;
 
+pub mod c01;
 pub mod c03;
 pub mod c04;
 pub mod c05;
 pub mod c06;
 pub mod c07;
+pub mod c08;
+pub mod c09;
 pub mod c14;
 pub mod c18;
 pub mod c19;
@@ -12,11 +15,14 @@ pub mod c20;
 
 pub fn lookup(id: &str) -> Option<Property> {
     Some(match id {
+        "C01" => c01::property(),
         "C03" => c03::property(),
         "C04" => c04::property(),
         "C05" => c05::property(),
         "C06" => c06::property(),
         "C07" => c07::property(),
+        "C08" => c08::property(),
+        "C09" => c09::property(),
         "C14" => c14::property(),
         "C18" => c18::property(),
         "C19" => c19::property(),
